@@ -38,6 +38,8 @@ pub struct Coin {
     pub value: u64,
     /// 1-based wallet account the output pays
     pub acct: u32,
+    /// id (1-based index into `CoinWorld::addrs`) of the wallet address it pays
+    pub ad: u32,
     /// uid of the transaction that creates it
     pub tx: u32,
 }
@@ -49,15 +51,18 @@ pub struct CoinTx {
     pub tx: Option<Transaction>,
     /// spent coin ids (0: an outpoint that is nobody's coin)
     pub ins: Vec<u32>,
-    /// (coin id, value, account) of the outputs that pay the wallet
-    pub outs: Vec<(u32, u64, u32)>,
+    /// (coin id, value, account, address id) of the outputs that pay the wallet
+    pub outs: Vec<(u32, u64, u32, u32)>,
     /// absolute expiry height, 0 = never
     pub expiry: u32,
 }
 
 pub struct CoinWorld {
-    /// default external transparent address of each wallet account
+    /// the wallet's transparent addresses the harness pays: 1, 2 = the default external address of account 1, 2;
+    /// 3 = a second external address of account 1 (ids are 1-based indices)
     pub addrs: Vec<TransparentAddress>,
+    /// account (1-based) of each address
+    pub addr_acct: Vec<u32>,
     pub foreign: TransparentAddress,
     pub coins: BTreeMap<u32, Coin>,
     pub txs: BTreeMap<u32, CoinTx>,
@@ -66,6 +71,9 @@ pub struct CoinWorld {
     pub next_coin: u32,
     pub next_tx: u32,
 }
+
+/// ids of transactions shared with the harness chain (wallet-created transactions that also spend coins)
+pub const SHARED_BASE: u32 = 100_000;
 
 pub fn class<T>(r: &Result<Result<T, String>, String>) -> (&'static str, String) {
     match r {
@@ -76,8 +84,8 @@ pub fn class<T>(r: &Result<Result<T, String>, String>) -> (&'static str, String)
 }
 
 impl CoinWorld {
-    pub fn new(w: &W) -> Self {
-        let addrs = w
+    pub fn new(w: &mut W) -> Self {
+        let mut addrs: Vec<TransparentAddress> = w
             .acct_ids
             .iter()
             .map(|a| {
@@ -90,8 +98,32 @@ impl CoinWorld {
                 *ua.transparent().expect("default address has a transparent receiver")
             })
             .collect();
+        // a second address of account 1 (so that an address filter and an account filter can be told apart): the next external
+        // address, which the wallet generated with its gap-limit addresses when the account was created
+        let externals: Vec<String> = w
+            .st
+            .wallet()
+            .conn()
+            .prepare(
+                "SELECT cached_transparent_receiver_address FROM addresses
+                 WHERE account_id = ?1 AND key_scope = 0 AND transparent_child_index IS NOT NULL AND cached_transparent_receiver_address IS NOT NULL
+                 ORDER BY transparent_child_index",
+            )
+            .unwrap()
+            .query_map([w.acct_rows[0]], |r| r.get(0))
+            .unwrap()
+            .map(|r| r.unwrap())
+            .collect();
+        let second = externals
+            .iter()
+            .map(|a| <TransparentAddress as zcash_keys::encoding::AddressCodec<_>>::decode(&w.net, a).expect("harness: address decodes"))
+            .find(|a| *a != addrs[0])
+            .expect("harness: account 1 has a second external transparent address");
+        addrs.push(second);
+        assert!(addrs[2] != addrs[0] && addrs[2] != addrs[1], "harness: addresses must differ");
         CoinWorld {
             addrs,
+            addr_acct: vec![1, 2, 1],
             foreign: TransparentAddress::PublicKeyHash([0x5a; 20]),
             coins: BTreeMap::new(),
             txs: BTreeMap::new(),
@@ -102,29 +134,37 @@ impl CoinWorld {
         }
     }
 
-    fn add_coin(&mut self, txid: [u8; 32], index: u32, value: u64, acct: u32, tx: u32) -> u32 {
+    fn add_coin(&mut self, txid: [u8; 32], index: u32, value: u64, ad: u32, tx: u32) -> u32 {
         let id = self.next_coin;
         self.next_coin += 1;
-        self.coins.insert(id, Coin { txid, index, value, acct, tx });
+        let acct = self.addr_acct[(ad - 1) as usize];
+        self.coins.insert(id, Coin { txid, index, value, acct, ad, tx });
         self.by_outpoint.insert((txid, index), id);
         id
     }
 
-    /// An output of a transaction the wallet will only hear of through UTXO reports.
+    /// An output of a transaction the wallet will only hear of through UTXO reports, paying the default address of `acct`.
     pub fn new_utxo(&mut self, rng: &mut ChaChaRng, acct: u32, value: u64) -> u32 {
+        self.new_utxo_at(rng, acct, value)
+    }
+
+    /// ... paying the address with id `ad`
+    pub fn new_utxo_at(&mut self, rng: &mut ChaChaRng, ad: u32, value: u64) -> u32 {
         let mut txid = [0u8; 32];
         rng.fill_bytes(&mut txid);
         let uid = self.next_tx;
         self.next_tx += 1;
         let index = (rng.next_u32() % 3) as u32;
-        let c = self.add_coin(txid, index, value, acct, uid);
-        self.txs.insert(uid, CoinTx { txid, tx: None, ins: vec![], outs: vec![(c, value, acct)], expiry: 0 });
+        let c = self.add_coin(txid, index, value, ad, uid);
+        let acct = self.addr_acct[(ad - 1) as usize];
+        self.txs.insert(uid, CoinTx { txid, tx: None, ins: vec![], outs: vec![(c, value, acct, ad)], expiry: 0 });
         self.by_txid.insert(txid, uid);
         c
     }
 
     /// A full transparent transaction spending `ins` (coin ids; `foreign_ins` more inputs that are nobody's
-    /// coins) and paying `outs` = (account 1/2, or 0 for a foreign address; value); `expiry` absolute, 0 = never.
+    /// coins) and paying `outs` = (address id 1..3 - ids 1 and 2 are the default addresses of accounts 1 and 2 -, or 0 for
+    /// a foreign address; value); `expiry` absolute, 0 = never.
     /// Returns its uid; the outputs paying the wallet become coins.
     pub fn new_tx(&mut self, rng: &mut ChaChaRng, ins: &[u32], foreign_ins: usize, outs: &[(u32, u64)], expiry: u32) -> u32 {
         let mut vin = vec![];
@@ -139,8 +179,8 @@ impl CoinWorld {
         }
         let vout: Vec<TxOut> = outs
             .iter()
-            .map(|(acct, v)| {
-                let addr = if *acct == 0 { self.foreign } else { self.addrs[(*acct - 1) as usize] };
+            .map(|(ad, v)| {
+                let addr = if *ad == 0 { self.foreign } else { self.addrs[(*ad - 1) as usize] };
                 TxOut::new(Zatoshis::from_u64(*v).unwrap(), addr.script().into())
             })
             .collect();
@@ -162,10 +202,10 @@ impl CoinWorld {
         let uid = self.next_tx;
         self.next_tx += 1;
         let mut wouts = vec![];
-        for (i, (acct, v)) in outs.iter().enumerate() {
-            if *acct != 0 {
-                let c = self.add_coin(txid, i as u32, *v, *acct, uid);
-                wouts.push((c, *v, *acct));
+        for (i, (ad, v)) in outs.iter().enumerate() {
+            if *ad != 0 {
+                let c = self.add_coin(txid, i as u32, *v, *ad, uid);
+                wouts.push((c, *v, self.addr_acct[(*ad - 1) as usize], *ad));
             }
         }
         let mut all_ins: Vec<u32> = ins.to_vec();
@@ -175,10 +215,25 @@ impl CoinWorld {
         uid
     }
 
+    /// A transaction the wallet itself created that spends the coins `ins` (a shielding transaction): in the harness
+    /// chain's books it is transaction `chain_uid`; here it gets the id SHARED_BASE + chain_uid.
+    pub fn register_shared(&mut self, tx: &Transaction, chain_uid: u32, ins: &[u32]) -> u32 {
+        let txid: [u8; 32] = *tx.txid().as_ref();
+        let uid = SHARED_BASE + chain_uid;
+        self.txs.insert(uid, CoinTx { txid, tx: Some(tx.clone()), ins: ins.to_vec(), outs: vec![], expiry: u32::from(tx.expiry_height()) });
+        self.by_txid.insert(txid, uid);
+        uid
+    }
+
+    pub fn out_ref(&self, c: u32) -> zcash_client_backend::wallet::OutputRef {
+        let coin = &self.coins[&c];
+        zcash_client_backend::wallet::OutputRef::new(zcash_protocol::TxId::from_bytes(coin.txid), zcash_protocol::PoolType::Transparent, coin.index)
+    }
+
     /// put_received_transparent_utxo(coin, mined at `h` / height unknown)
     pub fn report(&self, w: &mut W, c: u32, h: Option<u32>) -> Result<Result<(), String>, String> {
         let coin = &self.coins[&c];
-        let addr = self.addrs[(coin.acct - 1) as usize];
+        let addr = self.addrs[(coin.ad - 1) as usize];
         let out = WalletTransparentOutput::from_parts(
             OutPoint::new(coin.txid, coin.index),
             TxOut::new(Zatoshis::from_u64(coin.value).unwrap(), addr.script().into()),
@@ -296,6 +351,45 @@ impl CoinWorld {
                 Some(json!([tx_uid(&s), c]))
             })
             .collect();
+        // the lock columns of the coin rows, and what get_locked_outputs reports per account (coins only)
+        let mut lock_rows: Vec<Value> = conn
+            .prepare(
+                "SELECT t.txid, u.output_index, u.lock_owner, u.lock_expiry_height FROM transparent_received_outputs u
+                 JOIN transactions t ON t.id_tx = u.transaction_id WHERE u.lock_expiry_height IS NOT NULL OR u.lock_owner IS NOT NULL",
+            )
+            .unwrap()
+            .query_map([], |r| Ok((r.get::<_, Vec<u8>>(0)?, r.get::<_, u32>(1)?, r.get::<_, Option<Vec<u8>>>(2)?, r.get::<_, Option<u32>>(3)?)))
+            .unwrap()
+            .map(|r| {
+                let (txid, index, own, exp) = r.unwrap();
+                let a: [u8; 32] = txid.try_into().unwrap();
+                let c = self.by_outpoint.get(&(a, index)).map(|c| *c as i64).unwrap_or(-1);
+                let o = own.map(|b| if b == vec![1u8; 32] { 0 } else if b == vec![2u8; 32] { 1 } else { 9 }).unwrap_or(-1);
+                json!([c, o, rel(exp)])
+            })
+            .collect();
+        lock_rows.sort_by_key(|x| x[0].as_i64().unwrap());
+        let lock_api: Vec<Value> = w
+            .acct_ids
+            .iter()
+            .map(|acct| {
+                use zcash_client_backend::data_api::locking::OutputLockStore;
+                let mut v: Vec<i64> = w
+                    .st
+                    .wallet()
+                    .get_locked_outputs(*acct)
+                    .unwrap_or_default() // ChainHeightUnknown before the first tip update
+                    .iter()
+                    .filter(|o| o.pool() == zcash_protocol::PoolType::Transparent)
+                    .map(|o| {
+                        let a: [u8; 32] = *o.txid().as_ref();
+                        self.by_outpoint.get(&(a, o.output_index())).map(|c| *c as i64).unwrap_or(-1)
+                    })
+                    .collect();
+                v.sort();
+                json!(v)
+            })
+            .collect();
         let summary = w.st.wallet().get_wallet_summary(ConfirmationsPolicy::MIN).unwrap();
         let bals: Vec<Option<Value>> = w
             .acct_ids
@@ -310,6 +404,6 @@ impl CoinWorld {
             .collect();
         let balp = bals.iter().all(|b| b.is_some());
         let bal: Vec<Value> = bals.into_iter().map(|b| b.unwrap_or(json!([0, 0, 0, 0]))).collect();
-        json!({"chk": true, "rows": out_rows, "smap": smap, "balp": balp, "bal": bal})
+        json!({"chk": true, "rows": out_rows, "smap": smap, "balp": balp, "bal": bal, "locks": {"rows": lock_rows, "api": lock_api}})
     }
 }
